@@ -11,7 +11,7 @@ import re
 
 from common import Rule, V, finish
 from mirlib import ENTRY_POINTS, short_path, op_const
-from srclib import walk_block, walk, lit_str, expr_text
+from srclib import children, stmt_exprs, walk_block, walk, lit_str, expr_text
 from svlib import SVEval, render, leaves
 from tplpaths import Templates, consistent
 
@@ -136,7 +136,37 @@ def check(ctx):
                      "%s::%s recognises attribute syntax by substring search on the token string: %s" % (f.owner, f.name, sorted(set(lits))), f.file, f.line))
         else:
             r3.ok("%s::%s works on the token structure" % (f.owner, f.name))
-    r3.require_floor(3, "attribute recognisers")
+    # every attribute of the item is visited: serde merges all #[serde(..)] attributes of an item, so the loop over `attrs` must not stop early
+    def loop_exits(stmts):
+        out = []
+        for st in stmts:
+            for e in stmt_exprs(st):
+                stack = [e]
+                while stack:
+                    x = stack.pop()
+                    if not isinstance(x, dict):
+                        continue
+                    if x.get("k") == "closure":
+                        continue          # `return` inside parse_nested_meta's closure leaves the closure, not the loop
+                    if x.get("k") in ("break", "return"):
+                        out.append(x.get("k"))
+                    if x.get("k") in ("for", "while", "loop") and isinstance(x.get("body"), list):
+                        continue          # an inner loop's own break
+                    stack.extend(children(x))
+        return out
+    for f in targets:
+        for e in walk_block(f.body):
+            if e.get("k") == "for" and re.search(r"\battrs\b", expr_text(e["iter"])):
+                it = expr_text(e["iter"])
+                trunc = re.search(r"\.(take|skip|step_by|nth|last|first)\(", it)
+                ex = loop_exits(e["body"])
+                if ex or trunc:
+                    r3.bad(V(r3.id, "%s::%s" % (f.owner, f.name), "attribute-loop-stops-early:%s" % ",".join(sorted(set(ex)) + ([trunc.group(1)] if trunc else [])),
+                             "the loop over the item's attributes can stop before the last attribute (%s): a rename/skip in a later #[serde(..)] is ignored"
+                             % (sorted(set(ex)) or trunc.group(1)), f.file, e["ln"]))
+                else:
+                    r3.ok("%s::%s visits every attribute" % (f.owner, f.name))
+    r3.require_floor(5, "attribute recognisers")
     rules.append(r3)
 
     # ---------------------------------------------------------------- D4
